@@ -109,6 +109,7 @@ func DefaultConfig() Config {
 type PathResult struct {
 	Kind     string            `json:"kind"` // ok | dropped | violation | unsupported | engine_error | budget | hang | solver
 	Label    string            `json:"label,omitempty"`
+	Labels   []string          `json:"labels,omitempty"` // every oracle that failed on this path, in order
 	Msg      string            `json:"msg,omitempty"`
 	Site     string            `json:"site,omitempty"`
 	Stack    string            `json:"stack,omitempty"`
@@ -136,6 +137,7 @@ type interpreter struct {
 	solver             *Solver
 	pc                 []*Term
 	prefix             []Decision
+	soft               []softViol
 	pos                int
 	trace              []Decision
 	pending            [][]Decision
@@ -632,6 +634,30 @@ func runPath(prog *ssa.Program, cfg *Config, h *Harness, s *Solver, extra []*Sol
 	s.Reset()
 	i.sched = newScheduler(i)
 	res = i.sched.runMain(h.Entry)
+	if len(i.soft) > 0 && res.Kind != "dropped" {
+		// one or more oracles failed earlier on this path
+		first := i.soft[0]
+		nres := &PathResult{Kind: "violation", Label: first.label, Msg: first.msg, Site: first.site, Model: res.Model, Stack: res.Stack}
+		seen := map[string]bool{}
+		for _, sv := range i.soft {
+			if !seen[sv.label] {
+				seen[sv.label] = true
+				nres.Labels = append(nres.Labels, sv.label)
+			}
+		}
+		if res.Kind == "violation" && !seen[res.Label] {
+			nres.Labels = append(nres.Labels, res.Label)
+		}
+		if res.Kind != "ok" && res.Kind != "violation" {
+			nres.Msg += " (path later ended: " + res.Kind + " " + res.Msg + ")"
+		}
+		if nres.Model == nil {
+			i.fillModel(nres)
+		}
+		res = nres
+	} else if res.Kind == "violation" && len(res.Labels) == 0 {
+		res.Labels = []string{res.Label}
+	}
 	res.Trace = i.trace
 	res.Steps = i.steps
 	res.Queries = i.queries
